@@ -2,7 +2,7 @@ SPECIFICATION Spec
 CONSTANTS
   Variants = {"deadline"}
   Relays = {1, 2}
-  ProvSet <- MCProvNone2
+  FetchSet = {}
   Values = {0, 1, 2}
   CfgSet <- MCCfgPair
   TableSet = {"A"}
